@@ -401,6 +401,30 @@ pub fn t_raise(rng: &mut Rng, profile: &'static str, run_seed: u64, miri: bool) 
     prog
 }
 
+/// C08/C14/C01: a future_sync future is polled until its operation is suspended in the middle, then dropped, with other operations
+/// already queued behind it (the lifetime-erasing cancellation path)
+pub fn t_cancel_fs(rng: &mut Rng, profile: &'static str, run_seed: u64, miri: bool) -> Program {
+    let mut prog = Program::new(run_seed, profile, "future_sync_cancelled_mid_operation");
+    prog.pool = *rng.pick(&[1usize, 1, 2, 3]);
+    prog.pool_mode = *rng.pick(&[PoolMode::Warm, PoolMode::Fresh]);
+    prog.n_obj = 1;
+    let g = prog.new_gate();
+    let mut t0 = vec![];
+    for _ in 0..rng.below(2) { let id = prog.add_op(0, Kind::Desync, Disp::None, vec![Step::Touch]); t0.push(TAct::Op(id)); }
+    // the gate stays closed until the future has been dropped (it is fired at the very end by the firer)
+    let fs = prog.add_op(0, Kind::FutSync, Disp::PollDrop(rng.range(2, 4) as u8), vec![Step::Touch, Step::Gate(g), Step::Touch]);
+    let mut t1 = vec![];
+    for _ in 0..rng.range(1, if miri { 2 } else { 3 }) {
+        let id = if rng.chance(2, 3) { prog.add_op(0, Kind::Desync, Disp::None, vec![Step::Touch, Step::Touch]) } else { prog.add_op(0, Kind::FutDesync, Disp::Detach, vec![Step::Touch, Step::Yield, Step::Touch]) };
+        t1.push(TAct::Op(id));
+    }
+    if rng.chance(1, 2) { t0.push(TAct::Op(fs)); t0.extend(t1.clone()); prog.threads.push(t0); }
+    else { t0.push(TAct::Op(fs)); prog.threads.push(t1); prog.threads.push(t0); }
+    if rng.chance(1, 2) { let id = prog.add_op(0, Kind::Sync, Disp::None, vec![Step::Touch]); prog.threads.push(vec![TAct::Op(id)]); }
+    prog.fire.push(FAct::Fire(g));
+    prog
+}
+
 /// C09: a try_sync issued while a gated operation occupies the object; the gate is opened only after try_sync has returned
 pub fn t_try_block(rng: &mut Rng, profile: &'static str, run_seed: u64, miri: bool) -> Program {
     let mut prog = Program::new(run_seed, profile, "try_sync_must_not_block");
@@ -633,6 +657,9 @@ pub fn generate(profile: &'static str, rng: &mut Rng, run_seed: u64, miri: bool)
         "C12" => t_pipe(rng, profile, run_seed, miri, true, false),
         "C16" => t_pipe(rng, profile, run_seed, miri, true, true),
         "C05" => if r < 20 { t_pipe(rng, profile, run_seed, miri, false, false) } else { mixed(rng, profile, &cfg, run_seed) },
+        "C14" if r >= 100 - (if miri { 40 } else { 12 }) => t_cancel_fs(rng, profile, run_seed, miri),
+        "C08" if r >= 85 => t_cancel_fs(rng, profile, run_seed, miri),
+        "C01" if r >= 92 => t_cancel_fs(rng, profile, run_seed, miri),
         "C14" => if r < 10 { t_pipe(rng, profile, run_seed, miri, true, false) } else if r < 20 { t_pipe(rng, profile, run_seed, miri, false, false) } else if r < 30 { t_holds(rng, profile, run_seed, miri, true) } else { mixed(rng, profile, &cfg, run_seed) },
         "C01" => if r < 8 { t_pipe(rng, profile, run_seed, miri, false, false) } else if r < 16 { t_pipe(rng, profile, run_seed, miri, true, false) } else { mixed(rng, profile, &cfg, run_seed) },
         _ => mixed(rng, profile, &cfg, run_seed),
